@@ -443,3 +443,235 @@ Proof. intros I2 Ho Hm Mp Ap NR H. unfold spec_pin. cbv zeta. rewrite NR.
           rewrite Ex, Hnil in X. destruct (opts_equal_sound _ _ OE) as [_ _ S3 S4 _ _ _ _ _]. destruct (norm_fields ex Nex) as [_ [N2 _]].
           apply X; try reflexivity; try exact AL; cbn [alloc_input rmin rmax current priority]; auto. }
         destruct (literal_req o' ex); cbn [andb]; [exact F|]. rewrite F. apply orb_true_r. Qed.
+
+Lemma pin_passes c e ord st p : inv2 st -> order_oracle ord -> one_metric_per_peer e ->
+  meta_nodup (p_opts p) -> NoDup (p_allocs p) ->
+  spec_pin c e st p (obsres_of (fst (pin_core c e ord st p []))) (snd (pin_core c e ord st p [])) = true.
+Proof. intros I2 Ho Hm Mp Ap. unfold pin_core.
+  assert (Herr : forall x, spec_pin c e st p (OErr x) st = true).
+  { intros x. unfold spec_pin. cbv zeta. destruct (match o_update (p_opts p) with Some u => if negb (u =? p_cid p)%N then Some u else None | None => None end) as [u|]; [|reflexivity].
+    unfold spec_update. destruct (is_some (aget u st)); reflexivity. }
+  destruct (follower c); [apply Herr|].
+  assert (Hmain : (match o_update (p_opts p) with Some u => if negb (u =? p_cid p)%N then Some u else None | None => None end) = None ->
+                  spec_pin c e st p (obsres_of (fst (pin_main c e ord st p []))) (snd (pin_main c e ord st p [])) = true).
+  { intros NR. destruct (pin_main c e ord st p []) as [[q|x] st'] eqn:E; cbn [fst snd obsres_of].
+    - now apply (main_passes c e ord st p q st').
+    - apply pin_main_err in E. subst. apply Herr. }
+  destruct (o_update (p_opts p)) as [u|] eqn:Eu; [|now apply Hmain].
+  destruct (negb (u =? p_cid p)%N) eqn:Ne; [|now apply Hmain].
+  unfold spec_pin. cbv zeta. rewrite Eu, Ne. apply update_passes. exact I2. Qed.
+
+(* completeness: every configuration, environment, map order, pinset satisfying the invariant of reachable pinsets, call *)
+Theorem step_passes_monitor_l c e ord st k : inv2 st -> call_wf k -> order_oracle ord -> one_metric_per_peer e ->
+  spec_okb c e st k (obsres_of (fst (step c e ord st k))) (snd (step c e ord st k)) = true.
+Proof. intros I2 Wk Ho Hm. unfold spec_okb.
+  pose proof (inv_step c e ord st k (proj1 I2)) as [ND' _]. apply nodupb_NoDup in ND'. rewrite ND'. cbn [andb].
+  assert (H2 : match obsres_of (fst (step c e ord st k)) with OErr _ => st_eqb st (snd (step c e ord st k)) | OOk _ => negb (follower c) end = true).
+  { destruct (step c e ord st k) as [[q|x] st'] eqn:E; cbn [fst snd obsres_of].
+    - destruct (follower c) eqn:F; [|reflexivity]. destruct (follower_refuses_l c e ord st k F) as [x Ex]. congruence.
+    - apply refused_unchanged_l in E. subst. now apply st_eqb_refl. }
+  rewrite H2. cbn [andb].
+  destruct k as [h o|pa o|f t o|h|pa|p]; cbn [step call_wf] in *.
+  - apply pin_passes; auto. constructor.
+  - destruct (aget pa (e_resolve e)) as [h|]; [|reflexivity]. apply pin_passes; auto. constructor.
+  - now apply update_passes.
+  - now apply unpin_passes.
+  - destruct (aget pa (e_resolve e)) as [h|]; [|reflexivity]. now apply unpin_passes.
+  - destruct Wk. now apply pin_passes. Qed.
+
+(* ... hence at every point of every history (each call with its own environment and map order) *)
+Definition hist_wf (h : list (env * (list N -> list N) * call)) : Prop :=
+  forall x, In x h -> call_wf (snd x) /\ order_oracle (snd (fst x)) /\ one_metric_per_peer (fst (fst x)).
+
+Lemma inv2_run c : forall h st, inv2 st -> hist_wf h -> inv2 (run c st h).
+Proof. induction h as [|x r IH]; intros st I2 Hw; [exact I2|]. unfold run. cbn [fold_left]. apply IH.
+  - destruct (Hw x (or_introl eq_refl)) as [A [B C]]. now apply inv2_step.
+  - intros y Hy. apply Hw. now right. Qed.
+
+Theorem history_passes_monitor_l c h e ord k : hist_wf (h ++ [(e, ord, k)]) ->
+  let st := run c [] h in
+  spec_okb c e st k (obsres_of (fst (step c e ord st k))) (snd (step c e ord st k)) = true.
+Proof. intros Hw st.
+  assert (Hh : hist_wf h) by (intros x Hx; apply Hw; apply in_or_app; now left).
+  destruct (Hw (e, ord, k)) as [A [B C]]; [apply in_or_app; right; now left|].
+  apply step_passes_monitor_l; auto. apply inv2_run; auto. apply inv2_empty. Qed.
+
+(* ================================================================== *)
+(* soundness of the remaining clauses                                  *)
+(* ================================================================== *)
+(* every entry outside ks is the same (up to the order of allocations and of metadata) before and after *)
+Definition unchanged_outside (ks : list N) (st st' : pinset) : Prop :=
+  forall k, ~ In k ks -> match aget k st, aget k st' with
+                         | Some p, Some q => pin_equiv p q | None, None => True | _, _ => False end.
+
+Lemma same_except_sound ks st st' : same_except ks st st' = true -> unchanged_outside ks st st'.
+Proof. unfold same_except. rewrite andb_true_iff, !forallb_forall. intros [H1 H2] k Hk.
+  assert (Mk : memN k ks = false) by (now apply memN_false).
+  destruct (aget k st) as [p|] eqn:A.
+  - pose proof (C04_ClusterOps.aget_in _ _ _ A) as Hin. apply H1 in Hin. cbn [fst] in Hin. rewrite Mk, A in Hin. cbn [orb] in Hin.
+    destruct (aget k st') as [q|]; [now apply pin_eqb_sound|discriminate].
+  - destruct (aget k st') as [q|] eqn:B; auto. apply C04_ClusterOps.aget_in in B. apply H2 in B. cbn [fst] in B. rewrite Mk, A in B. discriminate. Qed.
+
+(* the property's reading of options *)
+Record opts_read_same (a b : opts) : Prop := {
+  rs_rmin : o_rmin a = o_rmin b; rs_rmax : o_rmax a = o_rmax b; rs_name : o_name a = o_name b; rs_mode : o_mode a = o_mode b;
+  rs_shard : o_shard a = o_shard b; rs_expire : o_expire a = o_expire b;
+  rs_meta : meta_same (o_meta a) (o_meta b); rs_origins : origins_same (o_origins a) (o_origins b) }.
+
+Lemma opts_sem_eqb_sound a b : opts_sem_eqb a b = true -> opts_read_same a b.
+Proof. unfold opts_sem_eqb. rewrite !andb_true_iff. intros [[[[[[[H1 H2] H3] H4] H5] H6] H7] H8].
+  constructor; try (now apply Z.eqb_eq); try (now apply N.eqb_eq).
+  - now apply expire_eqb_eq.
+  - intros k Hk. rewrite <- (aget_nz k (o_meta a) Hk), <- (aget_nz k (o_meta b) Hk). now apply meta_eqb_sound.
+  - unfold seteqb in H8. apply andb_true_iff in H8. destruct H8 as [A B]. split; now apply subsetb_incl. Qed.
+
+(* unpin *)
+Lemma spec_unpin_sound_l c e st h q st' : spec_unpin c e st h (OOk q) st' = true ->
+  exists p, aget h st = Some p /\ pin_equiv p q /\
+    ((p_ty p <> MetaT /\ aget h st' = None /\ unchanged_outside [h] st st') \/
+     (p_ty p = MetaT /\ exists rf ls, p_ref p = Some rf /\ aget rf (e_links e) = Some ls /\
+        (forall k, In k (h :: rf :: ls) -> aget k st' = None) /\ unchanged_outside (h :: rf :: ls) st st')).
+Proof. unfold spec_unpin. destruct (aget h st) as [p|]; [|discriminate]. rewrite andb_true_iff. intros [H1 H2].
+  exists p. split; auto. split; [now apply pin_eqb_sound|].
+  assert (Hplain : negb (is_some (aget h st')) && same_except [h] st st' = true -> aget h st' = None /\ unchanged_outside [h] st st').
+  { rewrite andb_true_iff. intros [A B]. split; [destruct (aget h st'); [discriminate|reflexivity]|now apply same_except_sound]. }
+  destruct (p_ty p) eqn:Ty; try (left; split; [discriminate|now apply Hplain]).
+  right. split; auto. destruct (p_ref p) as [rf|]; [|discriminate]. destruct (aget rf (e_links e)) as [ls|] eqn:El; [|discriminate].
+  apply andb_true_iff in H2. destruct H2 as [A B]. exists rf, ls. repeat split; auto.
+  - intros k Hk. rewrite forallb_forall in A. specialize (A k Hk). destruct (aget k st'); [discriminate|reflexivity].
+  - now apply same_except_sound. Qed.
+
+(* update *)
+Lemma spec_update_sound_l c e st f t o q st' : spec_update c e st f t o (OOk q) st' = true ->
+  exists ex s, aget f st = Some ex /\ aget t st' = Some s /\
+    pin_equiv s (pb_norm (updated_pin (e_now e) ex f t o)) /\ pin_equiv s (pb_norm q) /\ unchanged_outside [t] st st'.
+Proof. unfold spec_update. rewrite andb_true_iff. intros [H _].
+  destruct (aget f st) as [ex|]; [|discriminate]. destruct (aget t st') as [s|]; [|discriminate].
+  rewrite !andb_true_iff in H. destruct H as [[A B] C]. exists ex, s. split; [reflexivity|]. split; [reflexivity|].
+  split; [now apply pin_eqb_sound|]. split; [now apply pin_eqb_sound|now apply same_except_sound]. Qed.
+
+(* pin (no update redirect): the allocation clause of the monitor, named *)
+Definition alloc_clause (c : cfg) (e : env) (st : pinset) (p0 s : pin) : bool :=
+  let h := p_cid p0 in let o' := with_defaults c (p_opts p0) in let existing := aget h st in
+  let cur := match existing with Some ex => p_allocs ex | None => [] end in
+  let ident_lit := match existing with Some ex => identical_req o' (p_depth p0) ex && literal_req o' ex | None => false end in
+  let ident_sem := match existing with Some ex => identical_req o' (p_depth p0) ex | None => false end in
+  let kept := match cur with [] => false | _ => perm_eqb (p_allocs s) cur end in
+  let fresh (prio : list N) :=
+    if everywhere o' then (match p_allocs s with [] => true | _ => false end)
+    else C03_Check.spec_okb (e_now e) (mk_input (o_rmin o') (o_rmax o') cur (e_metrics e) [] prio (alloc_rev c)) (ObsOk (p_allocs s)) in
+  let changed := match p_allocs p0 with
+                 | _ :: _ => if everywhere o' then fresh [] else perm_eqb (p_allocs s) (p_allocs p0)
+                 | [] => fresh (o_ualloc o') end in
+  if ptype_eqb (p_ty p0) MetaT || negb (mode_of_depth (p_depth p0) =? o_mode o')%N then true
+  else if ident_lit then (match cur with [] => fresh [] | _ => kept end)
+  else if negb ident_sem then changed
+  else kept || changed || fresh [].
+
+Definition no_redirectb (p0 : pin) : bool :=
+  match o_update (p_opts p0) with Some u => (u =? p_cid p0)%N | None => true end.
+
+Lemma spec_pin_sound_l c e st p0 q st' : no_redirectb p0 = true -> spec_pin c e st p0 (OOk q) st' = true ->
+  let h := p_cid p0 in let o' := with_defaults c (p_opts p0) in
+  factors_valid (o_rmin o') (o_rmax o') = true /\ expire_past (e_now e) (o_expire o') = false /\
+  (forall ex, aget h st = Some ex -> p_ty ex = p_ty p0 /\ (o_mode (p_opts ex) = 0%N -> o_mode o' = 0%N)) /\
+  exists s, aget h st' = Some s /\ unchanged_outside [h] st st' /\ pin_equiv s (pb_norm q) /\ p_ty s = p_ty p0 /\
+            opts_read_same (p_opts s) (pb_norm_opts (p_depth s) o') /\ alloc_clause c e st p0 s = true.
+Proof. intros NR H. cbv zeta. unfold spec_pin in H. cbv zeta in H.
+  assert (R : match o_update (p_opts p0) with Some u => if negb (u =? p_cid p0)%N then Some u else None | None => None end = None).
+  { unfold no_redirectb in NR. destruct (o_update (p_opts p0)); [now rewrite NR|reflexivity]. }
+  rewrite R in H. apply andb_true_iff in H. destruct H as [MR H]. apply negb_true_iff in MR.
+  apply orb_false_iff in MR. destruct MR as [MR M3]. apply orb_false_iff in MR. destruct MR as [M1 M2]. apply negb_false_iff in M1.
+  split; [exact M1|]. split; [exact M2|]. split.
+  - intros ex Ex. rewrite Ex in M3. apply orb_false_iff in M3. destruct M3 as [A B]. apply negb_false_iff, ptype_eqb_eq in A. split; auto.
+    intros Z0. rewrite Z0 in B. cbn [N.eqb andb] in B. apply negb_false_iff in B. now apply N.eqb_eq in B.
+  - destruct (aget (p_cid p0) st') as [s|]; [|discriminate]. rewrite !andb_true_iff in H. destruct H as [[[[A B] C] D] E].
+    exists s. split; auto. split; [now apply same_except_sound|]. split; [now apply pin_eqb_sound|].
+    split; [now apply ptype_eqb_eq|]. split; [now apply opts_sem_eqb_sound|exact E]. Qed.
+
+(* readings of the allocation clause *)
+(* the request is literally the stored entry (and that entry has allocations): the allocations stay *)
+Lemma alloc_clause_identical c e st p0 s ex : alloc_clause c e st p0 s = true ->
+  p_ty p0 <> MetaT -> mode_of_depth (p_depth p0) = o_mode (with_defaults c (p_opts p0)) ->
+  aget (p_cid p0) st = Some ex -> identical_req (with_defaults c (p_opts p0)) (p_depth p0) ex = true ->
+  literal_req (with_defaults c (p_opts p0)) ex = true -> p_allocs ex <> [] -> Permutation (p_allocs s) (p_allocs ex).
+Proof. unfold alloc_clause. cbv zeta. intros H Ty Md Ex I1 I2 Ne. apply ptype_eqb_neq in Ty. rewrite Ty, Md, N.eqb_refl in H.
+  cbn [negb orb] in H. rewrite Ex, I1, I2 in H. cbn [andb] in H. destruct (p_allocs ex) as [|a r]; [congruence|]. now apply perm_eqb_sound. Qed.
+
+(* some option differs (as the property reads options) and the request names its allocations: they are the stored ones *)
+Lemma alloc_clause_explicit c e st p0 s : alloc_clause c e st p0 s = true ->
+  p_ty p0 <> MetaT -> mode_of_depth (p_depth p0) = o_mode (with_defaults c (p_opts p0)) ->
+  (forall ex, aget (p_cid p0) st = Some ex -> identical_req (with_defaults c (p_opts p0)) (p_depth p0) ex = false) ->
+  p_allocs p0 <> [] -> everywhere (with_defaults c (p_opts p0)) = false -> Permutation (p_allocs s) (p_allocs p0).
+Proof. unfold alloc_clause. cbv zeta. intros H Ty Md Hid Ne Ev. apply ptype_eqb_neq in Ty. rewrite Ty, Md, N.eqb_refl in H.
+  cbn [negb orb] in H. rewrite Ev in H.
+  assert (E1 : match aget (p_cid p0) st with Some ex => identical_req (with_defaults c (p_opts p0)) (p_depth p0) ex | None => false end = false).
+  { destruct (aget (p_cid p0) st) as [ex|]; [now apply Hid|reflexivity]. }
+  assert (E2 : match aget (p_cid p0) st with Some ex => identical_req (with_defaults c (p_opts p0)) (p_depth p0) ex && literal_req (with_defaults c (p_opts p0)) ex | None => false end = false).
+  { destruct (aget (p_cid p0) st) as [ex|]; [now rewrite (Hid ex eq_refl)|reflexivity]. }
+  rewrite E1, E2 in H. cbn [negb] in H. destruct (p_allocs p0) as [|a r]; [congruence|]. now apply perm_eqb_sound. Qed.
+
+(* a first pin without named allocations: the stored allocation satisfies C03's property (alloc_spec) *)
+Lemma alloc_clause_first c e st p0 s : alloc_clause c e st p0 s = true ->
+  p_ty p0 <> MetaT -> mode_of_depth (p_depth p0) = o_mode (with_defaults c (p_opts p0)) ->
+  aget (p_cid p0) st = None -> p_allocs p0 = [] -> one_metric_per_peer e ->
+  let o' := with_defaults c (p_opts p0) in
+  valid_factors (o_rmin o') (o_rmax o') ->
+  alloc_spec (e_now e) (mk_input (o_rmin o') (o_rmax o') [] (e_metrics e) [] (o_ualloc o') (alloc_rev c)) (p_allocs s).
+Proof. unfold alloc_clause. cbv zeta. intros H Ty Md Ex Pa Hm Vf. apply ptype_eqb_neq in Ty. rewrite Ty, Md, N.eqb_refl in H.
+  cbn [negb orb] in H. rewrite Ex, Pa in H. cbn [negb] in H.
+  assert (Ev : everywhere (with_defaults c (p_opts p0)) = false).
+  { unfold valid_factors in Vf. unfold everywhere. destruct (Z.eqb_spec (o_rmin (with_defaults c (p_opts p0))) (-1)); [lia|reflexivity]. }
+  rewrite Ev in H. apply alloc_monitor_sound_l; auto. constructor. Qed.
+
+(* from the monitor to its per-call clause *)
+Lemma spec_okb_clause c e st k r st' : spec_okb c e st k r st' = true ->
+  match k with
+  | CPin h o => spec_pin c e st (pin_with_opts h o) r st'
+  | CPinPath pa o => match aget pa (e_resolve e) with
+                     | Some h => spec_pin c e st (pin_with_opts h o) r st'
+                     | None => match r with OErr _ => true | OOk _ => false end end
+  | CRpcPin p => spec_pin c e st p r st'
+  | CPinUpdate f t o => spec_update c e st f t o r st'
+  | CUnpin h => spec_unpin c e st h r st'
+  | CUnpinPath pa => match aget pa (e_resolve e) with
+                     | Some h => spec_unpin c e st h r st'
+                     | None => match r with OErr _ => true | OOk _ => false end end
+  end = true.
+Proof. unfold spec_okb. rewrite !andb_true_iff. intros [_ H]. exact H. Qed.
+
+Lemma spec_okb_unpin_sound_l c e st h q st' : spec_okb c e st (CUnpin h) (OOk q) st' = true ->
+  exists p, aget h st = Some p /\ pin_equiv p q /\
+    ((p_ty p <> MetaT /\ aget h st' = None /\ unchanged_outside [h] st st') \/
+     (p_ty p = MetaT /\ exists rf ls, p_ref p = Some rf /\ aget rf (e_links e) = Some ls /\
+        (forall k, In k (h :: rf :: ls) -> aget k st' = None) /\ unchanged_outside (h :: rf :: ls) st st')).
+Proof. intros H. apply spec_okb_clause in H. exact (spec_unpin_sound_l c e st h q st' H). Qed.
+
+Lemma spec_okb_update_sound_l c e st f t o q st' : spec_okb c e st (CPinUpdate f t o) (OOk q) st' = true ->
+  exists ex s, aget f st = Some ex /\ aget t st' = Some s /\
+    pin_equiv s (pb_norm (updated_pin (e_now e) ex f t o)) /\ pin_equiv s (pb_norm q) /\ unchanged_outside [t] st st'.
+Proof. intros H. apply spec_okb_clause in H. exact (spec_update_sound_l c e st f t o q st' H). Qed.
+
+Lemma spec_okb_pin_sound_l c e st p0 q st' : no_redirectb p0 = true -> spec_okb c e st (CRpcPin p0) (OOk q) st' = true ->
+  let h := p_cid p0 in let o' := with_defaults c (p_opts p0) in
+  factors_valid (o_rmin o') (o_rmax o') = true /\ expire_past (e_now e) (o_expire o') = false /\
+  (forall ex, aget h st = Some ex -> p_ty ex = p_ty p0 /\ (o_mode (p_opts ex) = 0%N -> o_mode o' = 0%N)) /\
+  exists s, aget h st' = Some s /\ unchanged_outside [h] st st' /\ pin_equiv s (pb_norm q) /\ p_ty s = p_ty p0 /\
+            opts_read_same (p_opts s) (pb_norm_opts (p_depth s) o') /\ alloc_clause c e st p0 s = true.
+Proof. intros NR H. apply spec_okb_clause in H. exact (spec_pin_sound_l c e st p0 q st' NR H). Qed.
+
+(* a pin whose update source is another CID is judged as the update it is *)
+Lemma spec_okb_pin_redirect_sound_l c e st p0 u q st' : o_update (p_opts p0) = Some u -> u <> p_cid p0 ->
+  spec_okb c e st (CRpcPin p0) (OOk q) st' = true ->
+  exists ex s, aget u st = Some ex /\ aget (p_cid p0) st' = Some s /\
+    pin_equiv s (pb_norm (updated_pin (e_now e) ex u (p_cid p0) (p_opts p0))) /\ pin_equiv s (pb_norm q) /\
+    unchanged_outside [p_cid p0] st st'.
+Proof. intros Eu Hne H. apply spec_okb_clause in H. unfold spec_pin in H. cbv zeta in H. rewrite Eu in H.
+  destruct (N.eqb_spec u (p_cid p0)); [contradiction|]. cbn [negb] in H. exact (spec_update_sound_l c e st u (p_cid p0) (p_opts p0) q st' H). Qed.
+
+(* calls by CID and by path are judged as the RPC call they reduce to *)
+Lemma spec_okb_calls_reduce c e st h o pa r st' :
+  spec_okb c e st (CPin h o) r st' = spec_okb c e st (CRpcPin (pin_with_opts h o)) r st' /\
+  (aget pa (e_resolve e) = Some h -> spec_okb c e st (CPinPath pa o) r st' = spec_okb c e st (CPin h o) r st' /\
+                                     spec_okb c e st (CUnpinPath pa) r st' = spec_okb c e st (CUnpin h) r st').
+Proof. split; [reflexivity|]. intros E. unfold spec_okb. now rewrite E. Qed.
